@@ -195,7 +195,7 @@ func c19Conc(name string, twoBackends bool, order []string, pb int) vx.Scenario 
 			answered++
 		}
 	}
-	return vx.Scenario{Name: "c19/conc/" + name, PB: pb, Delay: true, Single: answered < 2, MaxSteps: 400000, MaxTime: 5 * time.Minute,
+	return vx.Scenario{Name: "c19/conc/" + name, PB: pb, Delay: true, NoPost: true, Single: answered < 2 || pb == 0, MaxSteps: 400000, MaxTime: 5 * time.Minute,
 		Setup: func(s *vs.Sched) func(*vs.Result) vx.Exec {
 			cl := []*c19Client{{name: "c1", path: "/one", body: payload(1, 10)}, {name: "c2", path: "/s/two", body: payload(2, 20)}}
 			backendOf := map[string]string{"c1": "b1", "c2": "b1"}
@@ -309,6 +309,7 @@ func c19Fault(fail []int) vx.Scenario {
 			c := &c19Client{name: "c1", path: "/doc", body: payload(1, 50)}
 			var statuses []string
 			started := false
+			stillPending := false
 			nops := 0
 			s.Thread("client", func() {
 				vs.Wait("backend registered", unsafe.Pointer(c), func() bool { return started })
@@ -344,6 +345,25 @@ func c19Fault(fail []int) vx.Scenario {
 				statuses = append(statuses, "respond:pending")
 				p = call(agent(a1), "POST", "/agent/response", agentHdr("b1", ids[0]), wireResponse(200, []byte("resp"), "c1"))
 				statuses[len(statuses)-1] = fmt.Sprintf("respond:%d", p.status)
+				if p.status != 200 {
+					// the agent tries again (its upload is retried, or its next poll lists the request once more)
+					statuses = append(statuses, "respond-again:pending")
+					p = call(agent(a1), "POST", "/agent/response", agentHdr("b1", ids[0]), wireResponse(200, []byte("resp"), "c1"))
+					statuses[len(statuses)-1] = fmt.Sprintf("respond-again:%d", p.status)
+				}
+				if p.status == 200 {
+					// a request whose response was accepted is no longer pending
+					w.Fault = nil
+					l := call(agent(a1), "GET", "/agent/pending", agentHdr("b1", ""), nil)
+					var left []string
+					json.Unmarshal(l.body, &left)
+					for _, id := range left {
+						if id == ids[0] {
+							stillPending = true
+						}
+					}
+					statuses = append(statuses, fmt.Sprintf("pending-after:%v", left))
+				}
 			})
 			return func(r *vs.Result) vx.Exec {
 				var x vx.Exec
@@ -363,6 +383,9 @@ func c19Fault(fail []int) vx.Scenario {
 					default:
 						x.Violations = append(x.Violations, fmt.Sprintf("STATUS: client answered %d under faults %v", c.res.status, fail))
 					}
+				}
+				if stillPending {
+					x.Violations = append(x.Violations, fmt.Sprintf("STILL-PENDING: the agent's response was accepted (%v) but the request is still listed as pending afterwards (faults %v)", statuses, fail))
 				}
 				st := -1
 				if c.res != nil {
@@ -507,6 +530,9 @@ func c19Scenarios(th bool) []vx.Scenario {
 		if th {
 			pb = 3
 		}
+		if n > 3000000 && !th {
+			pb = 1 // three concurrent part writes: every order of their completions is reached with one preemption less
+		}
 		out = append(out, c19Store(n, pb))
 	}
 	// sizes: around the 1,000,000-byte inline / part limits, counting the serialised headers (<= 400 bytes): sweep the window
@@ -534,7 +560,11 @@ func c19Scenarios(th bool) []vx.Scenario {
 	}
 	for _, two := range []bool{false, true} {
 		for _, ord := range [][]string{{"c1", "c2"}, {"c2", "c1"}, {"c2"}, {"wrong", "c1"}, {}} {
-			out = append(out, c19Conc(fmt.Sprintf("two=%v/%v", two, ord), two, ord, pb))
+			p := pb
+			if two && !th {
+				p = 0 // two backends: the default schedule in the quick tier, schedules in the thorough one
+			}
+			out = append(out, c19Conc(fmt.Sprintf("two=%v/%v", two, ord), two, ord, p))
 		}
 	}
 	// outages: from the k-th service call of the cycle on, every call fails
